@@ -171,7 +171,7 @@ def backtrack_rule(chk, prog):
         elif t in ("alt", "seq"):
             for k in p[1]:
                 refs_all(k, out)
-        elif t in ("many", "opt", "ws"):
+        elif t in ("many", "opt", "ws", "lex"):
             refs_all(p[1], out)
         elif t == "sep":
             refs_all(p[1], out)
@@ -214,7 +214,7 @@ def backtrack_rule(chk, prog):
             for k in p[1]:
                 out |= leading(k, depth)
             return out
-        if t in ("many", "opt"):
+        if t in ("many", "opt", "lex"):
             return leading(p[1], depth)
         if t == "sep":
             return leading(p[2], depth)
@@ -241,7 +241,7 @@ def backtrack_rule(chk, prog):
         t = p[0]
         if depth > 30:
             return acc
-        if t == "ws" or t in ("many", "opt"):
+        if t in ("ws", "lex", "many", "opt"):
             return head_refs(p[1], acc, depth)
         if t == "ref":
             if p[1] not in acc:
@@ -309,7 +309,7 @@ def backtrack_rule(chk, prog):
                 r = walk_alts(name, k)
                 if r:
                     return r
-        elif t in ("many", "opt", "ws"):
+        elif t in ("many", "opt", "ws", "lex"):
             return walk_alts(name, p[1])
         elif t == "sep":
             return walk_alts(name, p[1]) or walk_alts(name, p[2])
